@@ -14,6 +14,24 @@ class Ctx:
         self.hashseed = hashseed
         self.scratch = scratch
         self.quick = tier == "quick"
+        self.stats = {}
+        self.slice = (0, 1)
+
+    def emitted(self, name):
+        """Transitions emitted by TLC (one JSON object per line) that belong to this driver's slice."""
+        import json as _json
+
+        path = os.path.join(self.scratch, "emit_%s.ndjson" % name)
+        if not os.path.exists(path):
+            return
+        k, n = self.slice
+        with open(path) as f:
+            for i, line in enumerate(f):
+                if i % n == k:
+                    yield _json.loads(line)
+
+    def count(self, key, inc=1):
+        self.stats[key] = self.stats.get(key, 0) + inc
 
     def family(self, name):
         from . import gen
@@ -34,12 +52,14 @@ def main():
     ap.add_argument("--hashseed", type=int, default=0)
     ap.add_argument("--scratch", required=True)
     ap.add_argument("--out", required=True)
+    ap.add_argument("--slice", default="0/1")
     a = ap.parse_args()
     assert os.environ.get("PYTHONHASHSEED") == str(a.hashseed), "driver must run under the requested hash seed"
     import importlib
 
     mod = importlib.import_module("cgv.props." + a.prop)
     ctx = Ctx(a.tier, a.seed, a.hashseed, a.scratch)
+    ctx.slice = tuple(int(x) for x in a.slice.split("/"))
     n = 0
     replay = os.environ.get("CGV_REPLAY_CASE")
     if replay:
@@ -64,6 +84,8 @@ def main():
                 e.setdefault("src", case.get("src", "?"))
                 e["case"] = case
                 out.write(json.dumps(e, separators=(",", ":")) + "\n")
+    with open(a.out + ".stats.json", "w") as f:
+        json.dump(ctx.stats, f)
     print("recorded %d events" % n)
 
 
